@@ -347,6 +347,9 @@ func beat() {
 		go func() {
 			for {
 				time.Sleep(5 * time.Second)
+				if unwatched.Load() {
+					continue
+				}
 				if time.Since(time.Unix(0, lastBeat.Load())) > StallSeconds*time.Second {
 					fmt.Fprintln(os.Stderr, "VERIF-STALL: no case finished for", StallSeconds, "seconds of real time")
 					os.Exit(3)
@@ -355,6 +358,12 @@ func beat() {
 		}()
 	})
 }
+
+var unwatched atomic.Bool
+
+// Unwatch switches the watchdog off for the rest of the process: for a phase that does not report cases through
+// Current and has its own termination guarantee (the controlled scheduler's step limit and deadline).
+func Unwatch() { unwatched.Store(true) }
 
 // StallSeconds is the real-time no-progress limit of the watchdog.
 var StallSeconds time.Duration = 180
